@@ -1040,9 +1040,11 @@ def mk_server_cfg(args: ArgsType) -> configparser.SectionProxy:
             value = args[opt]
             if test_cfg_val(opt, value):
                 cfg[opt] = arg2config(opt, opt_type, value)
-            elif value not in NULL_ARGS:
+            elif value not in NULL_ARGS or (opt_type is list and opt in cfg):
                 # Value in effect is the default, so it isn't written; don't
-                # leave behind a stale override from an earlier run.
+                # leave behind a stale override from an earlier run.  (An
+                # empty account list is in effect when --all found no active
+                # account of a type that the config file still lists.)
                 USERCFG.remove_option(server, opt)
 
     return cfg
